@@ -203,12 +203,25 @@ class Ops:
             ctx.oblige("safety:no-wrap:sub@" + tag, zand(z3.BVSubNoOverflow(a, b), z3.BVSubNoUnderflow(a, b, True)), where, "safety")
             return a - b
         if op == "*":
+            ca = z3.simplify(a)
+            cb = z3.simplify(b)
+            if z3.is_bv_value(ca) or z3.is_bv_value(cb):
+                # constant factor: the no-wrap condition is a range check on the other operand
+                c, x = (ca.as_signed_long(), b) if z3.is_bv_value(ca) else (cb.as_signed_long(), a)
+                lo, hi = -(1 << (W - 1)), (1 << (W - 1)) - 1
+                if c == 0:
+                    cond = True
+                elif c > 0:
+                    cond = zand(x >= z3.BitVecVal(-((-lo) // c), W), x <= z3.BitVecVal(hi // c, W))
+                else:
+                    cond = zand(x >= z3.BitVecVal(-(hi // -c), W), x <= z3.BitVecVal((-lo) // -c, W))
+                ctx.oblige("safety:no-wrap:mul@" + tag, cond, where, "safety")
+                return a * b
             ctx.oblige("safety:no-wrap:mul@" + tag, zand(z3.BVMulNoOverflow(a, b, True), z3.BVMulNoUnderflow(a, b)), where, "safety")
             return z3.simplify(a * b, push_ite_bv=True) if self._small_ite(a) and self._small_ite(b) else a * b
         if op in ("//", "%"):
             zero = self.int_const(0)
-            if ctx.branch(b == zero, where):
-                raise PyRaise("ZeroDivisionError", where)
+            ctx.guard_error(b == zero, "ZeroDivisionError", where)
             ctx.oblige("safety:positive-divisor@" + tag, b > zero, where, "safety")
             # floor semantics for a positive divisor
             r = z3.SRem(a, b)
@@ -219,16 +232,14 @@ class Ops:
             return z3.If(neg, q - self.int_const(1), q)
         if op == "<<":
             zero = self.int_const(0)
-            if ctx.branch(b < zero, where):
-                raise PyRaise("ValueError", where)      # negative shift count
+            ctx.guard_error(b < zero, "ValueError", where)      # negative shift count
             ctx.oblige("safety:shift-count-in-model@" + tag, b < self.int_const(W), where, "safety")
             res = a << b
             ctx.oblige("safety:no-wrap:shl@" + tag, (res >> b) == a, where, "safety")
             return res
         if op == ">>":
             zero = self.int_const(0)
-            if ctx.branch(b < zero, where):
-                raise PyRaise("ValueError", where)
+            ctx.guard_error(b < zero, "ValueError", where)
             return a >> b      # arithmetic shift = floor division by 2**b, saturating for b >= W
         if op == "&":
             return a & b
@@ -261,8 +272,7 @@ class Ops:
         if op == "*":
             return a * b
         if op in ("//", "%"):
-            if ctx.branch(b == 0, where):
-                raise PyRaise("ZeroDivisionError", where)
+            ctx.guard_error(b == 0, "ZeroDivisionError", where)
             ctx.oblige("safety:positive-divisor@%s" % (where,), b > 0, where, "safety")
             return a / b if op == "//" else a % b     # z3 Int div/mod are floor for positive divisor
         raise Unsupported("operator %s in the Int theory at %s" % (op, where))
@@ -274,8 +284,7 @@ class Ops:
             return a + b if op == "+" else a - b if op == "-" else a * b
         if op == "/":
             a, b = self.lift_real(a), self.lift_real(b)
-            if ctx.branch(b == 0, where):
-                raise PyRaise("ZeroDivisionError", where)
+            ctx.guard_error(b == 0, "ZeroDivisionError", where)
             return a / b
         raise Unsupported("real operator %s at %s" % (op, where))
 
